@@ -1,5 +1,5 @@
 """C04 — sequence operations on a track select exactly the designated observations (tracklib/core/track.py)."""
-import itertools
+import itertools, math
 from engine import Prop, err_kind
 
 BASE = 946684800 + 12345      # 2000-01-01 03:25:45
@@ -51,7 +51,11 @@ class P(Prop):
         (M, "TV.C04.sortByTime_spec", "sort as run by the driver: permutation of the records, non-decreasing times"),
     ]
     partial = []
-    open_statements = []
+    open_statements = [
+        "'without modifying the source track' cannot be stated about a purely functional model: it is checked on the real code by the oracle (the source is dumped after every operator)",
+        "(int)(math.log(N)/math.log(2)) = floor(log2 N) is a float computation outside the theorems: T1/T2 hold for any first step 2^j with 2*2^j <= N; the 'ilog' stream checks the expression for every N <= 2^16 (2^21 thorough) and around every 2^k, k < 40",
+        "arguments with no designated observation (negative indices / counts, index >= size, zero step, empty pattern) are modelled and compared with the code but are outside the property's oracle",
+    ]
     modelled = ("Track.__getInsertionIndex (dichotomy + two fix-up loops), insertObs/insertObsInChronoOrder, sort (np.argsort = trusted call "
                 "with the contract 'sorting permutation'), removeObsList/__removeObsListById/__removeObsById, extract, extractSpanTime, "
                 "__add__, __mod__ (int and list), __gt__/__lt__ with an integer, __transmitAF; timestamps as integers (C03 proves the "
@@ -62,7 +66,7 @@ class P(Prop):
     rule = ("every track of size 0..6 (0..7 thorough) over the time values {1,3,5,7} x every instant 0..8 (before / equal / between / after) for "
             "insertion and for sort; every sorted track of sizes 0..70 x every instant for the insertion index; random sorted tracks with ties of "
             "sizes 2^k, 2^k+-1 up to 1025; all index pairs -1..n / spans 0..8 (reversed, empty) / steps -2..n+2 / patterns of length <= 4 / "
-            "trims -2..n+2 / index lists of length <= 3 over -1..n and all subsets, on sizes <= 6. "
+            "trims -2..n+2 / index lists of length <= 3 over -1..n and all subsets, on sizes <= 6; the float expression of the first step for every N <= 2^16 (2^21 thorough). "
             "non-trivial = the track has at least 2 observations (so a loop of the operation runs)")
 
     # ---------------------------------------------------------------- setup / construction
@@ -149,6 +153,12 @@ class P(Prop):
                 # sort with many ties (numpy's introsort is not stable beyond 16 elements)
                 for _ in range(reps):
                     out.append({"kind": "sort", "times": [rng.randrange(rng.choice([2, 4, n + 1])) for _ in range(n)], "names": rng.choice([[], F, ["f", "g"]])})
+        # ---- the float expression of the first step, (int)(math.log(N)/math.log(2)), against the model's floor(log2 N)
+        top = 2 ** 16 if tier == "quick" else 2 ** 21
+        for lo in range(1, top + 2, 4096):
+            out.append({"kind": "ilog", "times": [], "lo": lo, "hi": min(lo + 4096, top + 2)})
+        for k in range(17 if tier == "quick" else 22, 40):
+            out.append({"kind": "ilog", "times": [], "lo": 2 ** k - 2, "hi": 2 ** k + 3})
         # ---- slicing operators on sizes 0..6
         for n in range(0, 7):
             tvs = [list(range(1, 2 * n + 1, 2)), [rng.choice(V4) for _ in range(n)]]
@@ -218,12 +228,15 @@ class P(Prop):
         return t
 
     def nontrivial(self, case):
-        return len(case["times"]) >= 2
+        return len(case["times"]) >= 2 or case["kind"] == "ilog"
 
     # ---------------------------------------------------------------- implementation
     def impl(self, case):
         k = case["kind"]
         names = case.get("names", [])
+        if k == "ilog":
+            # the expression of Track.__getInsertionIndex, evaluated by the same CPython / libm (trusted-contract check)
+            return {"j": [(int)(math.log(N) / math.log(2)) for N in range(case["lo"], case["hi"])]}
         tr = self.mk(case["times"], names)
         if k == "index":
             res = []
@@ -285,6 +298,8 @@ class P(Prop):
         names = case.get("names", [])
         p = self.tok_pts(obs_rows(case["times"], names))
         nm = self.tok_names(names)
+        if k == "ilog":
+            return ["C04.ilog2 %d %d" % (case["lo"], case["hi"])]
         if k == "index":
             T = ",".join(map(str, case["times"])) if case["times"] else "_"
             return ["C04.index %s %d" % (T, ts) for ts in case["tss"]]
@@ -313,6 +328,8 @@ class P(Prop):
         k = case["kind"]
         names = case.get("names", [])
         src = {"pts": obs_rows(case["times"], names), "names": list(names)}
+        if k == "ilog":
+            return {"j": [int(x) for x in replies[0].split(",")]}
         if k == "index":
             ids = []
             for r in replies:
@@ -364,6 +381,13 @@ class P(Prop):
     # ---------------------------------------------------------------- oracle (transfer)
     def spec(self, case, out):
         k = case["kind"]
+        if k == "ilog":
+            if "err" in out:
+                return "log expression raised %s" % out["err"]
+            for N, j in zip(range(case["lo"], case["hi"]), out["j"]):
+                if N >= 2 and not (j >= 1 and 2 ** j <= N):
+                    return "(int)(log(%d)/log(2)) = %d: the first step 2^(j-1) does not satisfy 2*2^(j-1) <= N" % (N, j)
+            return None
         names = list(case.get("names", []))
         rows = obs_rows(case["times"], names)
         n = len(rows)
@@ -477,6 +501,12 @@ class P(Prop):
 
     # ---------------------------------------------------------------- shrinking / search
     def shrink(self, case):
+        if case["kind"] == "ilog":
+            if case["hi"] - case["lo"] > 1:
+                mid = (case["lo"] + case["hi"]) // 2
+                yield dict(case, hi=mid)
+                yield dict(case, lo=mid)
+            return
         times = case["times"]
         n = len(times)
         k = case["kind"]
